@@ -57,6 +57,25 @@ int main_replay(){
   return 0;
 }
 '''
+REPLAY_INT = r'''
+/* On the real library: with a linear AND a conformal transform, integrate() equals quadrature weights times values, and both scale with the volume of the box. */
+int main_replay(){
+  int bad = 0;
+  for (int conf = 0; conf < 2; conf++) for (int lin = 0; lin < 2; lin++) {
+    TasGrid::TasmanianSparseGrid g = TasGrid::makeGlobalGrid(2, 1, 5, TasGrid::type_level, TasGrid::rule_clenshawcurtis);
+    if (lin) g.setDomainTransform({1.0, -2.0}, {4.0, 0.0});
+    if (conf) g.setConformalTransformASIN({4, 2});
+    std::vector<double> p = g.getPoints(); int n = g.getNumPoints(); std::vector<double> v(n, 1.0);
+    g.loadNeededValues(v);
+    std::vector<double> w = g.getQuadratureWeights(); double sw = 0.0; for (double x : w) sw += x;
+    double q; g.integrate(&q);
+    double vol = lin ? 6.0 : 4.0;
+    if (!(std::abs(q - sw) < 1.E-9) || !(std::abs(q - vol) < 1.E-6)) { std::printf("conformal %d, linear %d: integrate() of the constant 1 gives %.12g, weights sum to %.12g, volume %.12g\n", conf, lin, q, sw, vol); bad++; }
+  }
+  __CPROVER_assert(bad == 0, "C10 integrate() and the quadrature weights carry the scale of the linear transform with and without a conformal transform");
+  return 0;
+}
+'''
 def replay(prop, body=None):
     body = body or REPLAY
     def rp(job, ob, vals, wd):
@@ -86,4 +105,13 @@ def jobs(tier, seed, prop):
                    functions=["%s:%d %s" % (f["file"], f["line"], f["name"]) for f in cinfo["functions"]], info=cinfo, replay=replay(prop, REPLAY_BOTH),
                    assumed=["the four maps are stubs that log their identity (their own contracts: transforms.* and conformal.map*)"],
                    label="formTransformedPoints / formCanonicalPoints: the pull-back undoes the linear and conformal maps in the reverse order of the push-forward"))
+    Ri = X.Rules()
+    it, iinfo = conformal.emit_integrate(Ri)
+    t3 = [t_ for k, a, t_ in cf.sections if k == "text3"][0]
+    for w, fn in enumerate(("integrate", "getQuadratureWeights")):
+        out.append(Job("conformal.scale." + fn, '#include "tsg_shim.h"\nint tsg_exc;\n#define TSG_WHICH %d\n#line 1 "/verif/contracts/conformal.c"\n' % w + t3 + it + cf.text(("harness",), ["h_integrate"]), "h_integrate", unwind=5, timeout=120,
+                       functions=["%s:%d %s" % (f["file"], f["line"], f["name"]) for f in iinfo["functions"] if f["name"].endswith(fn)], info=iinfo, replay=replay(prop, REPLAY_INT),
+                       bounded="outputs <= 2, points <= 3 (full unwinding)",
+                       assumed=["the family integrate / weights, mapConformalWeights and getQuadratureScale are stubs that log (their own contracts: transforms.lemma_qscale, conformal.mapConformalWeights)", "R13: the product entry * scale is uninterpreted"],
+                       label="TasmanianSparseGrid::%s: conformal correction and linear scale compose (each applied exactly when set)" % fn))
     return out
